@@ -42,6 +42,21 @@ Theorem snippet_contains_failing_line : forall toks line before after,
 Proof. exact code_snippet_has_line. Qed.
 Print Assumptions snippet_contains_failing_line.
 
+(* the three statements above composed on code_snippet itself: whenever the source has the failing line, some line of
+   the snippet IS the failing line with its own number, marked, and no other line of the snippet is marked *)
+Theorem snippet_shows_the_failing_line_marked : forall u toks line before after d,
+  (0 <= before)%Z -> (0 <= after)%Z -> (1 <= line)%Z -> (line <= Z.of_nat (length (split_to_lines toks)))%Z ->
+  let lines := split_to_lines toks in
+  let off := Z.to_nat (Z.max (line - before - 1) 0) in
+  exists k, (Z.of_nat k < after + before + 1)%Z /\
+    nth k (code_snippet u toks line before after) d
+      = number_line u (number_width (length lines)) line line (nth (Z.to_nat (line - 1)) lines []) /\
+    marked u (nth k (code_snippet u toks line before after) d) /\
+    (forall j, (Z.of_nat j < after + before + 1)%Z -> (off + j < length lines)%nat ->
+               marked u (nth j (code_snippet u toks line before after) d) -> j = k).
+Proof. exact snippet_shows_failing_line. Qed.
+Print Assumptions snippet_shows_the_failing_line_marked.
+
 (* ---- every source line made of single-line tokens is shown verbatim, at its own number ---- *)
 (* pre: the tokens before row r (any rows, tokens spanning rows included); row: the tokens of row r, lying in order on
    the physical line ln, each covering its own slice; nxt: the first token after them (a later row, or the end marker).
